@@ -220,9 +220,9 @@ def retest(group, props):
     for p in props:
         with open(os.path.join(CASES, "cases", p + ".jsonl"), "w") as f:
             subprocess.run([drv, "gen", p, "quick", "1"], stdout=f, check=True)
-    gd = "/tmp/m7-" + group
-    ms = json.load(open(gd + "/mutants.json"))
-    cl = {c["idx"]: c for c in json.load(open(gd + "/out/classification.json"))}
+    td = os.path.join(RES, "tests")
+    ms = json.load(open(os.path.join(td, group + "_mutants.json")))
+    cl = {c["idx"]: c for c in json.load(open(os.path.join(td, group + "_classification.json")))}
     todo = [m for m in ms if cl.get(m["idx"], {}).get("verdict") == "OBSERVABLE"]
     os.environ["MUT_PROPS"] = ",".join(props)
     with mp.Pool(8) as pool:
